@@ -330,6 +330,19 @@ def run_events(item: Dict[str, Any], work: Path, out_path: Path) -> Dict[str, An
         gens = None
     else:
         w = adv.gen_world(rng, n_steps=item["steps"], **(item.get("world_kwargs") or {}))
+        if item.get("reuse_ids"):
+            # a requests file whose numbering starts again (a file of several days numbered per day): an id comes back once the
+            # first request that carried it has certainly left the waiting set (picked up or timed out)
+            firsts: List[Dict[str, Any]] = []
+            taken = {r["id"] for r in (w.get("preload") or [])}
+            gap = int(w.get("cancel", 600)) + 3 * int(w["dt"])
+            for r in sorted(w["requests"], key=lambda r: (r["dep"], r["id"])):
+                cand = [x for x in firsts if x["id"] not in taken and r["dep"] >= x["dep"] + gap]
+                if cand and rng.random() < 0.7:
+                    r["id"] = cand[0]["id"]
+                    taken.add(r["id"])
+                else:
+                    firsts.append(dict(r))
         scen = world.write_world(work / f"world_{item['id']}", w)
         rp = world.load(scen, work / "out", write_outputs=True, suffix=suffix, time_step_stats=True, keep_existing=again)
         if w.get("preload"):
@@ -360,6 +373,11 @@ def run_events(item: Dict[str, Any], work: Path, out_path: Path) -> Dict[str, An
     steps, final = state_steps(tr.lines)
     cancel = int(rp.e.config.sim.request_cancel_time_seconds)
     dt = int(rp.e.config.sim.timestep_duration_seconds)
+    if not item.get("scenario"):
+        cancel, dt = int(w.get("cancel", 600)), int(w["dt"])        # the scenario's input, not what the loaded configuration reports back
+    else:
+        inp = runs.scenario_inputs(Path(item["scenario"]))
+        cancel, dt = inp.get("cancel", cancel), inp.get("dt_cfg", dt)
     empty = {"loads": [], "charges": [], "moves": [], "pickups": [], "dropoffs": [], "cancels": [], "adds": [], "bad": 0}
     n = max(len(blocks), len(steps))
     with out_path.open("a") as f:
